@@ -8,5 +8,6 @@ let () =
       (match mode with
        | "write" -> Mwrite.run_write (List.tl c)
        | "lex" -> Mlex.run_lex (List.tl c)
+       | "read" -> Mread.run_read (List.tl c)
        | _ -> failwith "unknown mode");
       print_endline "end") cases
